@@ -248,17 +248,92 @@ def r2(ctx):
         recomputers.remove(key)
         ctx.inconclusive(R, 'the check/pin recomputation of %s is split into the private helper %s: the split form is not analysed' % (
             [c_.rsplit('::', 1)[-1] for c_ in callers], key))
-    for key in recomputers:
+    for key in recomputers + ([UPI] if UPI in f.bodies else []):
         n += 1
         recomputer(ctx, R, key)
     ctx.floor(R, 'Board-producing functions under the cache typestate', n, 4)
     return recomputers
 
 
+def reads_field(v, fld):
+    return any(isinstance(x, tuple) and len(x) == 3 and x[0] == 'field' and x[2] == fld for x in walk_all(v))
+
+
+def definitely_reset(ctx, R, key, s):
+    """Forward must-analysis: on every path, each of checkers / pinned is overwritten by a value that does not read it
+    before it is updated in place and before the function returns (a stale cache never survives a recomputation)."""
+    body, cfg = s.body, s.cfg
+    FL = ('checkers', 'pinned')
+    ev = {}
+    for st in s.stores:
+        t = st['target']
+        if t[2] and t[2][-1][0] == 'f' and t[2][-1][1] in FL:
+            f_ = t[2][-1][1]
+            ev.setdefault(st['blk'], []).append(('set' if not reads_field(st['value'], f_) else 'use', f_, st['line']))
+    for c in s.calls:
+        for a in c['args']:
+            if a[0] == 'ref' and a[2] and a[2][-1][0] == 'f' and a[2][-1][1] in FL and c['callee'] and 'assign' in c['callee']:
+                ev.setdefault(c['blk'], []).append(('use', a[2][-1][1], c['line']))
+        if c['callee'] == UPI:
+            for f_ in FL:
+                ev.setdefault(c['blk'], []).append(('set', f_, c['line']))
+    out = {}
+    bad = {}
+    changed = True
+    while changed:
+        changed = False
+        for bi in cfg.order:
+            preds = [p for p in cfg.pred[bi] if p in out]
+            if bi == 0:
+                st_in = frozenset()
+            elif not preds:
+                continue
+            else:
+                st_in = frozenset.intersection(*[out[p] for p in preds])
+            cur = set(st_in)
+            for kind, f_, ln in ev.get(bi, []):
+                if kind == 'set':
+                    cur.add(f_)
+                elif f_ not in cur:
+                    bad.setdefault((f_, 'update'), ln)
+            cur = frozenset(cur)
+            if out.get(bi) != cur:
+                out[bi] = cur
+                changed = True
+    # the fixpoint is reached from below on a must-analysis started with the entry only: recompute the uses at the end
+    bad = {}
+    for bi in cfg.order:
+        if bi not in out:
+            continue
+        preds = [p for p in cfg.pred[bi] if p in out]
+        cur = set() if bi == 0 or not preds else set(frozenset.intersection(*[out[p] for p in preds]))
+        for kind, f_, ln in ev.get(bi, []):
+            if kind == 'set':
+                cur.add(f_)
+            elif f_ not in cur:
+                bad.setdefault((f_, 'is updated in place'), ln)
+    for r in body.return_blocks():
+        if r in out:
+            for f_ in FL:
+                if f_ not in out[r]:
+                    bad.setdefault((f_, 'reaches a return'), body.blocks[r]['term']['line'])
+    for f_ in FL:
+        hits = sorted((k, ln) for k, ln in bad.items() if k[0] == f_)
+        if hits:
+            (_, what), ln = hits[0]
+            ctx.violation(R, '%s:stale:%s' % (key, f_), 'on some path `%s` %s without having been overwritten first: the old value '
+                          'of the cache survives the recomputation' % (f_, what), where(body, ln))
+        else:
+            ctx.ok(R, '%s: on every path `%s` is overwritten before it is updated in place and before the return' % (key, f_), where(body))
+
+
 def recomputer(ctx, R, key):
     s = ctx.an().summary(key)
     body = s.body
     cfg = s.cfg
+    definitely_reset(ctx, R, key, s)
+    if key == UPI:
+        return
     # all writes to checkers / pinned: direct stores and &mut borrows handed to calls
     resets = {}
     others = []
@@ -420,7 +495,7 @@ def result_root(s):
     return ('l', 0)
 
 
-def r3(ctx, recomputers):
+def r3(ctx, recomputers, floor=2):
     R = 'C03.R3'
     f = ctx.facts()
     n = 0
@@ -560,7 +635,7 @@ def r3(ctx, recomputers):
             ctx.violation(R, key + ':pin-branch', 'scan body does not record the single blocker as pinned exactly when popcount is 1', w)
         # direct checks
         direct(ctx, R, key, s, loop, o, A, K, Ck)
-    ctx.floor(R, 'slider-scan copies', n, 2)
+    ctx.floor(R, 'slider-scan copies', n, floor)
 
 
 def direct(ctx, R, key, s, loop, o, A, K, Ck):
@@ -591,11 +666,21 @@ def direct(ctx, R, key, s, loop, o, A, K, Ck):
 
     incremental = key != UPI
     if not incremental:
-        kinds = sorted(classify(bb(c['argvals'][1]), False)[0] for c in ups)
-        unguarded = all(not [g for g in guards(s, c['blk']) if g['blk'] not in loop['blocks']] for c in ups)
+        # contributions: `checkers ^= v` updates and the terms of a direct `checkers = a ^ b` (or `a | b`) assignment
+        vals = [(bb(c['argvals'][1]), c['blk']) for c in ups]
+        for st in s.stores:
+            t = st['target']
+            if st['blk'] not in loop['blocks'] and t[2] and t[2][-1][0] == 'f' and t[2][-1][1] == 'checkers':
+                v = bb(st['value'])
+                if v == ('bb0',):
+                    continue
+                terms = list(v[2]) if (is_bb(v, '^') or is_bb(v, '|')) else [v]
+                vals += [(t_, st['blk']) for t_ in terms if t_ != ('bb0',)]
+        kinds = sorted(classify(v, False)[0] for v, _ in vals)
+        unguarded = all(not [g for g in guards(s, b_) if g['blk'] not in loop['blocks']] for _, b_ in vals)
         if kinds == ['knight', 'pawn'] and unguarded:
             ctx.ok(R, '%s: adds knight attackers (knight_moves(k) & enemy knights) and pawn attackers (pawn_attacks(k, own colour, enemy pawns))' % key,
-                   where(body, ups[0]['line']))
+                   where(body, ups[0]['line'] if ups else None))
         else:
             ctx.violation(R, key + ':direct', 'from-scratch routine must add exactly the knight and the pawn attackers of k, found %s' % kinds,
                           where(body, (ups[0]['line'] if ups else None)))
